@@ -28,6 +28,9 @@ def oracle(case):
 
 
 def run(ctx, res):
+    if getattr(ctx, "replay", None):
+        nnm.run_replay(ctx, res, oracle)
+        return
     n = ctx.n(900, 12000)
     cases, cr = nnm.run_corr(ctx.pid, ctx.rng, n, maxlen=ctx.n(12, 14))
     res.corr.append(("NonnegMean.test/estim/bet vs NNM.run_test", cr, nnm.case_json))
